@@ -52,3 +52,24 @@ pub proof fn lemma_alt_reads_interval<'s>(bs: BoundSet, tail: Seq<char>, i: &'s 
         _ => {},
     }
 }
+
+// second attempt: the two-sided shapes only -- still over the resource limit (the `=~=` between pair_text(..) + tail and two_text(..) is the expensive
+// part: prove it once in a lemma of its own, for one shape at a time)
+pub proof fn lemma_alt_reads_two_sided<'s>(bs: BoundSet, tail: Seq<char>, i: &'s str, o: Vec<BoundSet>, rest: &'s str)
+    requires bs_wf(bs), version_ok(*bs.lower), version_ok(*bs.upper), *bs.lower != Bound::Lower(Predicate::Unbounded), *bs.upper != Bound::Upper(Predicate::Unbounded),
+        // (the shape `v`, printed when both ends are the same version, is lemma_alt_reads_exact)
+        !(*bs.lower matches Bound::Lower(Predicate::Including(v)) && *bs.upper matches Bound::Upper(Predicate::Including(w)) && ver_cmp(v, w) == Ordering::Equal),
+        ends_alternative(tail), i@ == bs_text(bs) + tail, range_acc(i, o, rest),
+    ensures rest@ == tail, forall|x: VKey| #![trigger any_within(o@, o@.len() as int, x)] any_within(o@, o@.len() as int, x) <==> within(bs, x),
+{
+    reveal_strlit(">="); reveal_strlit(">"); reveal_strlit("<="); reveal_strlit("<"); reveal_strlit(" <="); reveal_strlit(" <");
+    broadcast use lemma_k_flip;
+    let ge = Operation::GreaterThanEquals; let gt = Operation::GreaterThan; let lt = Operation::LessThan; let le = Operation::LessThanEquals;
+    match (*bs.lower, *bs.upper) {
+        (Bound::Lower(Predicate::Including(v)), Bound::Upper(Predicate::Including(w))) => { assert(i@ =~= two_text(ge, v, le, w, tail)); lemma_alt_reads_two(ge, v, le, w, tail, i, o, rest); },
+        (Bound::Lower(Predicate::Including(v)), Bound::Upper(Predicate::Excluding(w))) => { assert(i@ =~= two_text(ge, v, lt, w, tail)); lemma_alt_reads_two(ge, v, lt, w, tail, i, o, rest); },
+        (Bound::Lower(Predicate::Excluding(v)), Bound::Upper(Predicate::Including(w))) => { assert(i@ =~= two_text(gt, v, le, w, tail)); lemma_alt_reads_two(gt, v, le, w, tail, i, o, rest); },
+        (Bound::Lower(Predicate::Excluding(v)), Bound::Upper(Predicate::Excluding(w))) => { assert(i@ =~= two_text(gt, v, lt, w, tail)); lemma_alt_reads_two(gt, v, lt, w, tail, i, o, rest); },
+        _ => {},
+    }
+}
